@@ -467,6 +467,18 @@ def oracle_case(inp, out, tmpdir):
         return True
     if not same_problem(p_rec, p_direct, "record-vs-api"):
         return 1
+    # the documented meaning of the `strand` parameter, read independently of both construction paths: "both" = the
+    # pattern is searched on both strands of the region (location strand 0), 1 / -1 = that strand, whatever the strand
+    # of the annotated feature
+    for role in ("constraint", "objective"):
+        for spec, (cls, args, kw, loc) in zip(getattr(p_rec, role + "s"), direct[role]):
+            if "strand" in kw and cls.__name__ in ("AvoidPattern", "EnforcePatternOccurence"):
+                want = {"both": 0, 1: 1, -1: -1}[kw["strand"]]
+                if spec.location.strand != want:
+                    out.append(dict(kind="strand-parameter-not-applied:%s" % cls.__name__, input=inp,
+                                    detail="strand=%r on a feature of strand %r: the specification works on strand %r" % (
+                                        kw["strand"], loc[2], spec.location.strand)))
+                    return 1
     # (3) through a Genbank file (a Genbank file cannot hold an unstranded feature: those records stop here)
     path = os.path.join(tmpdir, "r.gb")
     if any(d["location"][2] is None for d in desc):
